@@ -13,7 +13,7 @@ RULE = ('caption sets with percentage layouts (origin / extent / padding values 
         'caption, span and bare-text-node level; (a) DFXPWriter (relativize x fit_to_screen) then DFXPReader: every uniquely tagged text keeps its effective layout, '
         'absent alignment parts becoming start / after, extent fitted when fit_to_screen is on; (b) '
         'WebVTTWriter: one cue per run of text nodes with one layout, equal times, settings = the reference '
-        'mapping; (c) WebVTT -> WebVTT keeps cue settings verbatim. Non-trivial: >= 2 distinct effective '
+        'mapping; (c) WebVTT -> WebVTT keeps cue settings verbatim. Blank layouts (all parts absent) and WebVTT captions whose last nodes inherit their layout are included. Non-trivial: >= 2 distinct effective '
         'layouts in the set (a, b) or a cue with settings (c).')
 ANCHORS = ['pycaption.dfxp.base:RegionCreator._collect_unique_regions',
            'pycaption.dfxp.base:RegionCreator._create_unique_regions',
